@@ -274,17 +274,21 @@ func (fi *famInfo) objectSort(items []int, maxLen int) (out []finding) {
 	rc := replayCase{Part: "list", Family: fi.Name, Items: append([]int{}, items...), MaxLen: maxLen}
 	want := fi.stableSorted(items)
 	if errText != "" {
+		rc.Law = "sorted-error:" + fi.Name
 		return []finding{{Sig: "sorted-error:" + fi.Name, What: fmt.Sprintf("family %s, input %s: object.Sort fails on mutually comparable input: %s", fi.Name, fi.names(items), errText), Observed: errText, Expected: fi.show(want), Case: rc}}
 	}
 	got := make([]int, len(objs))
 	for k, o := range objs {
-		i, ok := fi.idx[ident(o)]
+		i, ok := fi.ptr[o] // object.Sort permutes the very objects it was given
 		if !ok {
-			i = -1
+			if i, ok = fi.idx[ident(o)]; !ok {
+				i = -1
+			}
 		}
 		got[k] = i
 	}
 	if law := fi.classifySorted(got, items, want); law != "" {
+		rc.Law = "sorted-" + law + ":" + fi.Name
 		return []finding{{Sig: "sorted-" + law + ":" + fi.Name, What: fmt.Sprintf("family %s, input %s: object.Sort gives %s (breaks: %s)", fi.Name, fi.names(items), fi.show(got), law), Observed: fi.show(got), Expected: fi.show(want), Case: rc}}
 	}
 	return nil
@@ -489,12 +493,18 @@ func replayOne(r *ev.Run, path string) {
 	r.Outcome("replay:" + c.Part)
 	vals := pool()
 	report := func(fs []finding) {
+		n := 0
 		for _, f := range fs {
+			if c.Law != "" && f.Sig != c.Law {
+				fmt.Printf("  (also, other signature) %s: %s\n", f.Sig, f.What)
+				continue
+			}
+			n++
 			fmt.Printf("  finding %s: %s\n", f.Sig, f.What)
 			r.Report(f.Sig, f.What, f.Case, f.Observed, f.Expected)
 		}
-		if len(fs) == 0 {
-			fmt.Println("  no law is broken by this case")
+		if n == 0 {
+			fmt.Println("  the recorded law is not broken by this case")
 		}
 	}
 	switch c.Part {
